@@ -26,7 +26,7 @@ BOUNDS = {
     "quick": {"program_size": 2, "inputs": [0, 1, 2], "contexts": "none, singles, all"},
     "thorough": {"program_size": 3, "inputs": [0, 1, 2], "contexts": "none, singles, pairs, all"},
 }
-CHUNK = 25
+CHUNK = 10
 
 
 BIND_CTL = frozenset({
